@@ -250,7 +250,7 @@ class Scenario:
             terminate=terminate_cb))
         link.start()
         hangs = 0
-        link.thread.join(HANG_TIMEOUT + 4)
+        link.thread.join(HANG_TIMEOUT + 2)
         llc = st["llc"]
         replay = dict(self.descr)
         if link.thread.is_alive():
@@ -338,6 +338,9 @@ def oracle(ck):
     nblocked = 0
     try:
         for sc in scen:
+            if hangs >= 3 * MAX_HANG_REPORTS:
+                ck.notes.append("L3 stopped after %d hanging threads (each costs the time limit); remaining scenarios not run" % hangs)
+                break
             b, h = sc.run(MAX_HANG_REPORTS - hangs if hangs < MAX_HANG_REPORTS else 0)
             nblocked += b
             hangs += h
